@@ -200,6 +200,10 @@ func init() {
 		}
 		return nil, false
 	})
+	reg("LowerByte", func(c *icall) ([]*State, bool) {
+		c.set(charInt(toLowerChar(c.args[0].(IntV).T)))
+		return nil, false
+	})
 	reg("NoPanic", func(c *icall) ([]*State, bool) { c.s.NoPanic = true; return nil, false })
 	reg("Observe", func(c *icall) ([]*State, bool) {
 		iv := c.args[1].(IfaceV)
